@@ -116,6 +116,9 @@ pub struct AggState {
     /// (step, new epoch, route, sequence number of the last request received before) of the epoch changes that
     /// happened that way
     pub bumps: Vec<(u32, u64, u8, u64)>,
+    /// a pool that has stake in the AGGREGATOR's view of the chain only (party id, stake): the signer's own node does not
+    /// know it. Added to the aggregator's stake map of every epoch once set.
+    pub ghost: Option<(String, u64)>,
     pub chain: Option<Arc<mithril_cardano_node_chain::test::double::FakeChainObserver>>,
     pub stakes_fn: Option<fn(u8, u64) -> Vec<SignerWithStake>>,
     pub hits: FaultHits,
@@ -144,6 +147,7 @@ impl AggState {
             publish_fail_left: 0,
             bump_after: None,
             bumps: vec![],
+            ghost: None,
             chain: None,
             stakes_fn: None,
             hits: FaultHits::default(),
@@ -160,6 +164,14 @@ impl AggState {
     /// cycle of the signer (scripted epoch change in flight): what the signer sent was prepared in the epoch before
     pub fn received_after_change_in_flight(&self, step: u32, seq: u64, receipt_epoch: u64) -> bool {
         self.bumps.iter().any(|(s, e, _, q)| *s == step && *e == receipt_epoch && *q < seq)
+    }
+
+    /// the ghost pool is among the signers an aggregator announces for `epoch` (current signers: registered during
+    /// epoch-2, next signers: registered during epoch-1): the signer's node has no stake for one of the announced
+    /// signers, what a signer must do then is not determined by the statement beyond "publish nothing unacceptable"
+    pub fn ghost_announced_in(&self, epoch: u64) -> bool {
+        let Some((party, _)) = &self.ghost else { return false };
+        [epoch as i64 - 2, epoch as i64 - 1].iter().any(|e| self.registered_during(*e).iter().any(|r| &r.party_id == party))
     }
 
     pub fn heal(&mut self) {
@@ -285,9 +297,12 @@ async fn epoch_change_after(st: &Shared, route: u8) {
     if let Some((chain, stakes_fn, salt)) = job {
         let e = chain.next_epoch().await.map(|e| e.0).unwrap_or(0);
         let sws = stakes_fn(salt, e);
-        let map: BTreeMap<String, u64> = sws.iter().map(|s| (s.party_id.clone(), s.stake)).collect();
+        let mut map: BTreeMap<String, u64> = sws.iter().map(|s| (s.party_id.clone(), s.stake)).collect();
         chain.set_signers(sws).await;
         let mut s = st.lock().unwrap();
+        if let Some((party, stake)) = s.ghost.clone() {
+            map.insert(party, stake);
+        }
         s.epoch = e;
         s.stakes.insert(e, map);
         let (step, seq) = (s.step, s.seq);
